@@ -68,6 +68,27 @@ pub enum Ev {
     RemoveUnknown,
     RefreshUnknown,
     SessionUnknownUser,
+    /// the wall clock advances by one second (clock mode only)
+    Tick,
+}
+
+/// Session lifetimes of one search. Without the clock every non-zero lifetime is an hour and time
+/// stands still; with it the lifetimes are a few seconds of a virtual wall clock that `Tick` advances.
+#[derive(Clone, Copy, Debug)]
+pub struct Clk {
+    pub ticking: bool,
+    pub default: u64,
+    pub explicit: u64,
+    pub refresh: u64,
+}
+pub const NO_CLOCK: Clk = Clk { ticking: false, default: 3600, explicit: 3600, refresh: 3600 };
+pub const T0: u64 = 1_700_000_000;
+
+fn set_clock(clk: Clk, now: u64) {
+    // the wall clock is virtual in every search (it only moves in the clock search), so that the real
+    // expiry times are reproducible and can be part of the canonical state
+    let _ = clk;
+    humphrey::verif::time::set_virtual_clock(Some(T0 + now));
 }
 
 /// Reference model of one user slot (index = creation order)
@@ -75,8 +96,8 @@ pub enum Ev {
 pub struct MUser {
     pub exists: bool,
     pub pw: usize,
-    /// (token index, live)
-    pub session: Option<(usize, bool)>,
+    /// (token index, seconds of validity left; 0 = expired)
+    pub session: Option<(usize, u64)>,
 }
 
 #[derive(Clone)]
@@ -88,26 +109,46 @@ pub struct Node {
     pub tokens: Vec<String>,
     pub hashes: Vec<String>,
     pub history: Vec<Ev>,
+    /// seconds the virtual clock has advanced
+    pub now: u64,
 }
 
 pub const PWS: [&str; 2] = ["correct horse", "Tr0ub4dor&3"];
 
-fn provider(db: &Db, pepper: bool) -> AuthProvider<Db> {
+fn provider(db: &Db, pepper: bool, clk: Clk) -> AuthProvider<Db> {
     let mut cfg = AuthConfig::default();
+    if clk.ticking {
+        cfg = cfg.with_default_lifetime(clk.default).with_default_refresh_lifetime(clk.refresh);
+    }
     if pepper {
         cfg = cfg.with_pepper(b"pepper-for-verif");
     }
     AuthProvider::new(db.clone()).with_config(cfg)
 }
 
-fn canon(n: &Node) -> Vec<(bool, usize, Option<(usize, bool)>)> {
-    // tokens are named by issue order relative to the state: rename to first-use order so that
-    // histories differing only in dead tokens merge only when the probes cannot tell them apart
-    n.model.iter().map(|u| (u.exists, u.pw, u.session)).collect()
+/// (model: exists, password, session) + (real: user present, session token index and seconds to its expiry)
+type Canon = Vec<(bool, usize, Option<(usize, u64)>, bool, Option<(usize, i64)>)>;
+
+/// The canonical state is read off the REAL database as well as the model: two histories are merged only
+/// if every user's stored session has the same token and the same distance to its expiry. (Merging on the
+/// model alone would hide a defect that stores a wrong expiry and only shows after further ticks.)
+fn canon(n: &Node) -> Canon {
+    n.model
+        .iter()
+        .enumerate()
+        .map(|(u, mu)| {
+            let real = n.db.iter().find(|x| x.uid == n.uids[u]);
+            let rs = real.and_then(|x| x.session.as_ref()).map(|s| (n.tokens.iter().position(|t| *t == s.token).unwrap_or(usize::MAX), s.expiry as i64 - (T0 + n.now) as i64));
+            (mu.exists, mu.pw, mu.session, real.is_some(), rs)
+        })
+        .collect()
 }
 
-fn enabled(n: &Node, max_users: usize) -> Vec<Ev> {
+fn enabled(n: &Node, max_users: usize, clk: Clk) -> Vec<Ev> {
     let mut v = vec![];
+    if clk.ticking {
+        v.push(Ev::Tick);
+    }
     if n.model.len() < max_users {
         v.push(Ev::CreateUser(0));
         v.push(Ev::CreateUser(1));
@@ -138,13 +179,23 @@ fn hex64(t: &str) -> bool {
 }
 
 /// applies one event to the real provider and to the model; returns the successor or a violation
-fn step(n: &Node, ev: Ev, pepper: bool, all_tokens: &Mutex<HashSet<String>>) -> Result<Node, (String, String)> {
+fn step(n: &Node, ev: Ev, pepper: bool, clk: Clk, all_tokens: &Mutex<HashSet<String>>) -> Result<Node, (String, String)> {
     let db = Db(Arc::new(Mutex::new(n.db.clone())));
-    let mut p = provider(&db, pepper);
+    let mut p = provider(&db, pepper, clk);
+    set_clock(clk, n.now);
+    let live = |s: Option<(usize, u64)>| s.map_or(false, |s| s.1 > 0);
     let mut m = n.clone();
     m.history.push(ev);
     let bad = |sig: &str, what: String| Err((sig.to_string(), what));
     match ev {
+        Ev::Tick => {
+            m.now += 1;
+            for u in m.model.iter_mut() {
+                if let Some(s) = u.session.as_mut() {
+                    s.1 = s.1.saturating_sub(1);
+                }
+            }
+        }
         Ev::CreateUser(pw) => match p.create_user(PWS[pw]) {
             Ok(uid) => {
                 if n.uids.contains(&uid) {
@@ -170,12 +221,12 @@ fn step(n: &Node, ev: Ev, pepper: bool, all_tokens: &Mutex<HashSet<String>>) -> 
             let r = match l {
                 0 => p.create_session_with_lifetime(&n.uids[u], 0),
                 1 => p.create_session(&n.uids[u]),
-                _ => p.create_session_with_lifetime(&n.uids[u], 3600),
+                _ => p.create_session_with_lifetime(&n.uids[u], clk.explicit),
             };
             let mu = &n.model[u];
             let want: Result<(), AuthError> = if !mu.exists {
                 Err(AuthError::UserNotFound)
-            } else if mu.session.map_or(false, |s| s.1) {
+            } else if live(mu.session) {
                 Err(AuthError::SessionAlreadyExists)
             } else {
                 Ok(())
@@ -189,7 +240,7 @@ fn step(n: &Node, ev: Ev, pepper: bool, all_tokens: &Mutex<HashSet<String>>) -> 
                         return bad("a session token was issued twice", tok);
                     }
                     m.tokens.push(tok);
-                    m.model[u].session = Some((m.tokens.len() - 1, l != 0));
+                    m.model[u].session = Some((m.tokens.len() - 1, [0, clk.default, clk.explicit][l]));
                 }
                 (Ok(_), Err(AuthError::SessionAlreadyExists)) => return bad("a second live session was created for a user", format!("user {}", u)),
                 (Ok(_), Err(e)) => return bad("create_session succeeded where the reference refuses", format!("{:?}", e)),
@@ -203,7 +254,10 @@ fn step(n: &Node, ev: Ev, pepper: bool, all_tokens: &Mutex<HashSet<String>>) -> 
         }
         Ev::Refresh(t) => {
             let r = p.refresh_session(&n.tokens[t]);
-            let live_owner = owner_of(&n.model, t).filter(|&u| n.model[u].session.unwrap().1);
+            let live_owner = owner_of(&n.model, t).filter(|&u| live(n.model[u].session));
+            if let (true, Some(u)) = (r.is_ok(), live_owner) {
+                m.model[u].session = Some((t, clk.refresh));
+            }
             match (r.is_ok(), live_owner.is_some()) {
                 (true, false) => {
                     let why = if owner_of(&n.model, t).is_some() { "an expired token was accepted by refresh_session" } else { "a token that belongs to nobody was accepted by refresh_session" };
@@ -246,9 +300,10 @@ fn step(n: &Node, ev: Ev, pepper: bool, all_tokens: &Mutex<HashSet<String>>) -> 
 }
 
 /// all observations in a state; cheap ones always, password verification (Argon2) when `deep`
-fn probes(n: &Node, pepper: bool, deep: bool) -> Result<u64, (String, String)> {
+fn probes(n: &Node, pepper: bool, clk: Clk, deep: bool) -> Result<u64, (String, String)> {
     let db = Db(Arc::new(Mutex::new(n.db.clone())));
-    let mut p = provider(&db, pepper);
+    let mut p = provider(&db, pepper, clk);
+    set_clock(clk, n.now);
     let mut count = 0u64;
     let bad = |sig: &str, what: String| Err((sig.to_string(), what));
     for (u, mu) in n.model.iter().enumerate() {
@@ -281,7 +336,7 @@ fn probes(n: &Node, pepper: bool, deep: bool) -> Result<u64, (String, String)> {
     }
     for (t, tok) in n.tokens.iter().enumerate() {
         count += 1;
-        let want = owner_of(&n.model, t).filter(|&u| n.model[u].session.unwrap().1);
+        let want = owner_of(&n.model, t).filter(|&u| n.model[u].session.unwrap().1 > 0);
         let got = p.get_uid_by_token(tok);
         match (got, want) {
             (Ok(uid), Some(u)) => {
@@ -309,12 +364,12 @@ fn probes(n: &Node, pepper: bool, deep: bool) -> Result<u64, (String, String)> {
     }
     // the authenticated route: only a live token's owner gets through
     drop(p);
-    let st = St { provider: Mutex::new(provider(&db, pepper)) };
+    let st = St { provider: Mutex::new(provider(&db, pepper, clk)) };
     let app: App<St> = App::new_with_config(1, st).with_auth_route("/me", |_r: Request, _s: Arc<St>, uid: String| Response::new(StatusCode::OK, uid));
     let parts = app.verif_into_parts();
     let mut cookies: Vec<(Option<String>, Option<usize>)> = vec![(None, None), (Some("garbage".into()), None), (Some("f".repeat(64)), None)];
     for (t, tok) in n.tokens.iter().enumerate() {
-        cookies.push((Some(tok.clone()), owner_of(&n.model, t).filter(|&u| n.model[u].session.unwrap().1)));
+        cookies.push((Some(tok.clone()), owner_of(&n.model, t).filter(|&u| n.model[u].session.unwrap().1 > 0)));
     }
     for (cookie, want) in cookies {
         count += 1;
@@ -344,42 +399,44 @@ fn probes(n: &Node, pepper: bool, deep: bool) -> Result<u64, (String, String)> {
     Ok(count)
 }
 
-fn bfs(st: &mut Stats, pepper: bool, max_users: usize, depth: usize) {
+fn bfs(st: &mut Stats, pepper: bool, clk: Clk, max_users: usize, depth: usize) {
     let all_tokens = Mutex::new(HashSet::new());
-    let root = Node { model: vec![], db: vec![], uids: vec![], tokens: vec![], hashes: vec![], history: vec![] };
-    let mut seen: BTreeSet<(usize, Vec<(bool, usize, Option<(usize, bool)>)>)> = BTreeSet::new();
+    let root = Node { model: vec![], db: vec![], uids: vec![], tokens: vec![], hashes: vec![], history: vec![], now: 0 };
+    let mut seen: BTreeSet<(usize, Canon)> = BTreeSet::new();
     seen.insert((0, canon(&root)));
     let mut frontier = vec![root];
     st.states += 1;
     for d in 0..depth {
         // expand the whole level in parallel (Argon2 dominates)
-        let jobs: Vec<(&Node, Ev)> = frontier.iter().flat_map(|n| enabled(n, max_users).into_iter().map(move |ev| (n, ev))).collect();
+        let jobs: Vec<(&Node, Ev)> = frontier.iter().flat_map(|n| enabled(n, max_users, clk).into_iter().map(move |ev| (n, ev))).collect();
         let tok_ref = &all_tokens;
-        let results: Vec<(Ev, Result<Node, (String, String)>, Vec<Ev>)> = jobs.par_iter().map(|(n, ev)| (*ev, step(n, *ev, pepper, tok_ref), n.history.clone())).collect();
-        let mut next: Vec<Node> = vec![];
+        let results: Vec<(Ev, Result<Node, (String, String)>, Vec<Ev>)> = jobs.par_iter().map(|(n, ev)| (*ev, step(n, *ev, pepper, clk, tok_ref), n.history.clone())).collect();
+        // every successor is probed, also when its canonical state has been seen before: merging is only
+        // sound if the implementation agrees with the model there too (a path-dependent defect shows up as a
+        // successor whose observations differ from those of its canonical state)
+        let mut succ: Vec<(Node, bool)> = vec![];
         for (ev, r, hist) in results {
             st.transitions += 1;
             st.evaluations += 1;
             *st.counters.entry(format!("event:{}", format!("{:?}", ev).split('(').next().unwrap_or(""))).or_insert(0) += 1;
             match r {
-                Err((sig, what)) => st.violation(sig, || json!({"what": what, "pepper": pepper, "history": format!("{:?}", hist), "event": format!("{:?}", ev)})),
+                Err((sig, what)) => st.violation(sig, || json!({"what": what, "pepper": pepper, "clock": clk.ticking, "history": format!("{:?}", hist), "event": format!("{:?}", ev)})),
                 Ok(n) => {
                     // tokens issued are part of the state identity only through the sessions that hold them,
                     // plus the number of dead tokens (they are probed too)
                     let key = (n.tokens.len().min(depth + 1), canon(&n));
-                    if seen.insert(key) {
-                        next.push(n);
-                    }
+                    let fresh = seen.insert(key);
+                    succ.push((n, fresh));
                 }
             }
         }
-        st.states += next.len() as u64;
-        // probes in every new state; password checks when the set of users changed in the last step
-        let pr: Vec<(Result<u64, (String, String)>, Vec<Ev>)> = next
+        st.states += succ.iter().filter(|x| x.1).count() as u64;
+        // password checks (Argon2) in new states when the set of users changed in the last step, and at the last level
+        let pr: Vec<(Result<u64, (String, String)>, Vec<Ev>)> = succ
             .par_iter()
-            .map(|n| {
-                let deep = matches!(n.history.last(), Some(Ev::CreateUser(_)) | Some(Ev::RemoveUser(_))) || n.history.len() == depth;
-                (probes(n, pepper, deep), n.history.clone())
+            .map(|(n, fresh)| {
+                let deep = *fresh && (matches!(n.history.last(), Some(Ev::CreateUser(_)) | Some(Ev::RemoveUser(_))) || n.history.len() == depth);
+                (probes(n, pepper, clk, deep), n.history.clone())
             })
             .collect();
         for (r, hist) in pr {
@@ -388,9 +445,10 @@ fn bfs(st: &mut Stats, pepper: bool, max_users: usize, depth: usize) {
                     st.evaluations += c;
                     st.nontrivial += 1;
                 }
-                Err((sig, what)) => st.violation(sig, || json!({"what": what, "pepper": pepper, "history": format!("{:?}", hist)})),
+                Err((sig, what)) => st.violation(sig, || json!({"what": what, "pepper": pepper, "clock": clk.ticking, "history": format!("{:?}", hist)})),
             }
         }
+        let next: Vec<Node> = succ.into_iter().filter(|x| x.1).map(|x| x.0).collect();
         if d == 1 {
             if let Some(n) = next.last() {
                 st.sample(|| json!({"history": format!("{:?}", n.history), "model": format!("{:?}", n.model)}));
@@ -401,20 +459,27 @@ fn bfs(st: &mut Stats, pepper: bool, max_users: usize, depth: usize) {
             break;
         }
     }
-    st.outcome(format!("bfs pepper={} users<={} depth={}", pepper, max_users, depth));
+    humphrey::verif::time::set_virtual_clock(None);
+    st.outcome(format!("bfs pepper={} clock={} users<={} depth={}", pepper, clk.ticking, max_users, depth));
 }
 
 pub fn run(mut cx: Ctx) -> ! {
-    cx.rule = "breadth-first search over histories of {create_user(p1|p2), remove_user, create_session (already expired | default | 3600 s), refresh, invalidate_session, invalidate_user_session, and the same on unknown uids/tokens} on the real AuthProvider over the crate's own Vec<User> database (snapshot/restore), deduplicated on a canonical state (per user: exists, password, session none/live/expired with its token index; number of tokens issued); every step is compared with a reference model and in every state all probes are evaluated: exists, stored hash unchanged (password verification with right/other/wrong passwords whenever the user set changed and at the last level), get_uid_by_token for every token ever issued and unknown ones, and the with_auth_route handler with no cookie, garbage and every token; states = canonical states, transitions = operations applied; non-trivial = states probed".into();
+    cx.rule = "breadth-first search over histories of {create_user(p1|p2), remove_user, create_session (already expired | default | explicit lifetime), refresh, invalidate_session, invalidate_user_session, the same on unknown uids/tokens, and (clock search) one-second ticks of a virtual wall clock against lifetimes of 2-3 s} on the real AuthProvider over the crate's own Vec<User> database (snapshot/restore), deduplicated on a canonical state read off the model AND the real database (per user: exists, password, model session with seconds left, stored session's token index and distance to its expiry; number of tokens issued); every step is compared with a reference model and every successor (new or merged) is probed: exists, stored hash unchanged (password verification with right/other/wrong passwords in new states whenever the user set changed and at the last level), get_uid_by_token for every token ever issued and unknown ones, and the with_auth_route handler with no cookie, garbage and every token; states = canonical states, transitions = operations applied; non-trivial = successors probed".into();
     let depth = cx.pick(6, 8);
     let users = cx.pick(3, 3);
     cx.bound("depth", depth);
     cx.bound("max_users", users);
     let mut st = Stats::default();
-    bfs(&mut st, false, users, depth);
-    bfs(&mut st, true, users.min(2), depth.min(5) - 1);
+    bfs(&mut st, false, NO_CLOCK, users, depth);
+    bfs(&mut st, true, NO_CLOCK, users.min(2), depth.min(5) - 1);
+    // the same search on a virtual wall clock: sessions of 2 s (default), 3 s (explicit) and 2 s after a refresh,
+    // one-second ticks; expiry is reached by time passing, refresh extends from the moment of the refresh
+    let clk = Clk { ticking: true, default: 2, explicit: 3, refresh: 2 };
+    let cdepth = cx.pick(7, 9);
+    cx.bound("clock_search_depth", cdepth);
+    bfs(&mut st, false, clk, 2, cdepth);
     cx.stats.merge(st);
-    cx.assume("expiry is reached with lifetime 0 (expired at creation); the wall clock is not advanced, so `expires later` is not explored");
+    cx.assume("expiry is reached with lifetime 0 (expired at creation) and, in the clock search, by one-second ticks of a virtual wall clock (guarded UNIX_EPOCH facade in humphrey-auth) against lifetimes of 2-3 s; a session is live while now < expiry");
     cx.assume("that tokens are random cannot be decided by enumeration: format (64 hex digits) and non-repetition over the whole exploration are checked");
     cx.assume("password verification is a pure function of the stored hash, password and pepper; the hash is checked unchanged in every state and verification itself whenever the set of users changed and in all deepest states");
     cx.finish()
